@@ -233,6 +233,12 @@ class FakeNode(RpcNode):
             if p == ['chain_id']:
                 return _resp(200, self.chain_id)
             if p == ['mempool', 'pending_operations'] and method == 'GET':
+                if getattr(self, 'mempool_failures', 0) > 0:      # a gateway that does not serve the mempool right now (after `mempool_skip` served requests)
+                    if getattr(self, 'mempool_skip', 0) > 0:
+                        self.mempool_skip -= 1
+                    else:
+                        self.mempool_failures -= 1
+                        self._raise([{'kind': 'permanent', 'id': 'node.mempool.unavailable'}])
                 ops = [{'hash': m['hash'], 'branch': m['branch'], 'contents': m['contents'], 'signature': m['signature']}
                        for m in self.mempool]
                 if self.mempool_key == 'split':      # a current node that has classified the oldest pending operation and only received the later ones
@@ -369,9 +375,15 @@ class FakeNode(RpcNode):
         want = self.next_counters(len(got))
         src_ok = all(b58check(P_PKH[c['source'][0]], c['source'][1]) == self.address for c in dec['contents'])
         acc = got == want and src_ok
+        fee, gas = sum(c['fee'] for c in dec['contents']), sum(c['gas_limit'] for c in dec['contents'])
         rec = {'raw': raw, 'decoded': dec, 'got': got, 'want': want, 'accepted': acc, 'chain_ctr': self.chain_ctr,
-               'pending': self.pending(), 'source_ok': src_ok}
+               'pending': self.pending(), 'source_ok': src_ok,
+               # the node's default minimal-fee rule on the very bytes that arrived: 100 mutez + 1 mutez per byte + 0.1 mutez per unit of gas
+               'fee': fee, 'gas': gas, 'size': len(raw), 'fee_ok': 1000 * fee >= 100000 + 1000 * len(raw) + 100 * gas}
         self.injections.append(rec)
+        if getattr(self, 'inject_refusals', None):      # scripted refusals of well-formed operations (the state has moved on since the simulation, ...)
+            rec['accepted'] = False
+            self._raise([{'kind': 'temporary', 'id': self.inject_refusals.pop(0), 'contract': self.address}])
         oph = b58check(P_OP, hashlib.blake2b(raw, digest_size=32).digest())
         if not acc:
             eid = ('proto.024-PtTALLiN.contract.counter_in_the_past' if got and want and got[0] < want[0]
